@@ -12,10 +12,15 @@ Conventions
 * a vertex is `(x, y, z, d)`; the coordinates are opaque to the code (never computed with), the model carries
   them as integers (the harness uses dyadic coordinates and sends numerators over a fixed denominator).
 * the mask is the truthiness of `physical_mask` (`True` = floating vertex).
-* `SegmentList.instantiated_segments` (a cache of segment objects) is not modelled: a view query is answered
-  from the arrays, which is what the code does on a fresh `ArrayMorphology`.
+* `SegmentList.instantiated_segments` (a per-object cache of segment objects, keyed by the SEGMENT index exactly
+  as it was passed to `segments[...]`) IS modelled (second pass): `Obj` = arrays + cache, `step`/`run` execute a
+  HISTORY of calls on one object (`getItem` fills and reads the cache, iteration goes through `getItem`,
+  `to_root` rewrites the connectivity and leaves the cache alone, nothing else touches it).  The cache-free
+  functions (`viewGet`, `viewIter`, …) are the array-defined values the histories are compared with (`specRun`).
 -/
 namespace NmlVerif.ArrayMorph
+
+deriving instance DecidableEq for Except
 
 inductive Err where
   | indexError        -- numpy/Python `IndexError`
@@ -23,6 +28,8 @@ inductive Err where
   | nodeError         -- PyTables `NodeError`: the group already has a child of that name
   | noSuchNode        -- PyTables `NoSuchNodeError`: a group that is read as a morphology lacks an array
   | unboundLocal      -- (pre-repair writer only) `UnboundLocalError: cell`
+  | keyError          -- dict lookup of a missing key (only reachable in generated code, `Gen/ArrayMorph.lean`)
+  | attributeError    -- attribute access on `None` / on an object of another class (document writer)
 deriving Repr, DecidableEq, Inhabited
 
 abbrev Vec4 := Int × Int × Int × Int
@@ -152,6 +159,193 @@ def toRootFuel (fuel : Nat) (a : Arr) (index : Int) : Except Err Arr := do
     (`Proofs/ArrayMorph.lean: depth_lt`), so this fuel never runs out there -/
 def toRoot (a : Arr) (index : Int) : Except Err Arr := toRootFuel (a.conn.length + 1) a index
 
+/-! ### the object: arrays + segment cache; histories of calls on ONE object -/
+
+/-- `SegmentList.instantiated_segments`: a dict, key = the segment index as passed (any int, negative ones are
+    keys of their own), value = the segment object handed out.  Newest binding first; `List.lookup` finds the
+    newest, which is dict assignment. -/
+abbrev Cache := List (Int × Segment)
+
+/-- one `ArrayMorphology` object together with its `SegmentList` proxy (`self.segments.arraymorph is self`) -/
+structure Obj where
+  arr : Arr
+  cache : Cache
+deriving Repr, DecidableEq, Inhabited
+
+/-- the object right after construction: `SegmentList.__init__` sets `instantiated_segments = {}` -/
+def fresh (a : Arr) : Obj := { arr := a, cache := [] }
+
+/-- `SegmentList.__getitem__(segment_index)`: a cached segment is returned as is; otherwise the segment is built
+    from the arrays and stored under `segment_index`.  An `IndexError` leaves the cache untouched. -/
+def getItem (o : Obj) (segmentIndex : Int) : Except Err Segment × Obj :=
+  match o.cache.lookup segmentIndex with
+  | some s => (.ok s, o)
+  | none =>
+    match viewGet o.arr segmentIndex with
+    | .error e => (.error e, o)
+    | .ok s => (.ok s, { o with cache := (segmentIndex, s) :: o.cache })
+
+/-- `SegmentList.__setitem__(index, segment)` (outside the property: the user overrides a segment) -/
+def setItem (o : Obj) (index : Int) (s : Segment) : Obj := { o with cache := (index, s) :: o.cache }
+
+/-- the sequence-protocol loop behind `for s in morph.segments` / `list(morph.segments)`:
+    `__getitem__(k)`, `__getitem__(k+1)`, … until the first `IndexError` -/
+def iterFrom : Nat → Obj → Nat → List Segment × Obj
+  | 0, o, _ => ([], o)
+  | f + 1, o, k =>
+    match getItem o (k : Int) with
+    | (.ok s, o') => let r := iterFrom f o' (k + 1); (s :: r.1, r.2)
+    | (.error _, o') => ([], o')
+
+/-- the largest key of the cache (`-1` when there is none that is larger) -/
+def maxKey : Cache → Int
+  | [] => -1
+  | e :: es => if e.1 > maxKey es then e.1 else maxKey es
+
+/-- iteration of the view on an object with a cache.  A call `__getitem__(k)` can only succeed when `k` is a
+    position of `segment_distal_vertex_indexes` or a key of the cache (and the keys the loop itself adds are
+    below `k`), so the loop has stopped after at most `|distalIdx| + (largest key + 1) + 1` calls: this fuel never
+    runs out (`Proofs/ArrayMorphHist.lean: iterObj_fuel_enough`). -/
+def iterFuel (o : Obj) : Nat := (distalIdx o.arr).length + (maxKey o.cache + 1).toNat + 1
+
+def iterObj (o : Obj) : List Segment × Obj := iterFrom (iterFuel o) o 0
+
+/-- `ArrayMorphology.valid_ids`: every cached segment's id equals its key (truthiness of the product) -/
+def validIds (o : Obj) : Bool := o.cache.all (fun e => decide (e.2.id = e.1))
+
+/-- `ArrayMorphology.to_root(index)` on the object: rewrites `connectivity`, does NOT touch the cache (so
+    segments handed out earlier, and kept by the cache, keep their old parent).  When the call raises the
+    object is left as it was in the model (the code may have done part of its in-place writes: a history is
+    not continued after a failed `to_root`). -/
+def toRootObj (o : Obj) (index : Int) : Except Err Unit × Obj :=
+  match toRoot o.arr index with
+  | .ok a' => (.ok (), { o with arr := a' })
+  | .error e => (.error e, o)
+
+/-- `SegmentList.append(segment)` (outside the property: the morphology is no longer "given as arrays"): two
+    new vertices — the segment's distal point as a new root, floating unless it is the very first, and its
+    proximal point attached to it — and the segment object itself goes into the cache under `len(self) - 1`.
+    (On an object built with NO vertices the code's `np.append` turns `connectivity` into floats; the
+    harness only appends to objects that have vertices.) -/
+def appendSeg (o : Obj) (s : Segment) : Obj :=
+  let n := o.arr.vertices.length
+  let a' : Arr :=
+    { vertices := o.arr.vertices ++ [s.distal, s.proximal],
+      conn := o.arr.conn ++ [-1, (n : Int)],
+      mask := if o.arr.mask.length = 0 then [false, false] else o.arr.mask ++ [true, false] }
+  { arr := a', cache := (((viewLen a' : Nat) : Int) - 1, s) :: o.cache }
+
+/-- the calls of a history (the property's observers and `to_root`) -/
+inductive Op where
+  | get (i : Int)        -- `morph.segments[i]`
+  | len                  -- `len(morph.segments)`
+  | iter                 -- `list(morph.segments)`
+  | sfv (k : Int)        -- `morph.segment_from_vertex_index(k)`
+  | conv                 -- `morph.to_neuroml_morphology().segments`
+  | toRoot (j : Int)     -- `morph.to_root(j)`
+deriving Repr, DecidableEq, Inhabited
+
+/-- what one call returns -/
+inductive Res where
+  | seg (r : Except Err Segment)
+  | len (n : Nat)
+  | segs (l : List Segment)
+  | conv (r : Except Err (List Segment))
+  | unit (r : Except Err Unit)
+deriving DecidableEq
+
+/-- the call reads/fills the segment cache -/
+def Op.usesCache : Op → Bool
+  | .get _ => true
+  | .iter => true
+  | _ => false
+
+def Op.isToRoot : Op → Bool
+  | .toRoot _ => true
+  | _ => false
+
+/-- one call on the object -/
+def step (o : Obj) : Op → Res × Obj
+  | .get i => let r := getItem o i; (.seg r.1, r.2)
+  | .len => (.len (viewLen o.arr), o)
+  | .iter => let r := iterObj o; (.segs r.1, r.2)
+  | .sfv k => (.seg (segmentFromVertex o.arr k), o)
+  | .conv => (.conv (toNeuromlMorphology o.arr), o)
+  | .toRoot j => let r := toRootObj o j; (.unit r.1, r.2)
+
+/-- a history of calls on one object: the results in order, and the final object -/
+def run : Obj → List Op → List Res × Obj
+  | o, [] => ([], o)
+  | o, op :: ops => let r := step o op; let rs := run r.2 ops; (r.1 :: rs.1, rs.2)
+
+/-- the array-defined value of one call: computed from the arrays alone (no cache) -/
+def specStep (a : Arr) : Op → Res × Arr
+  | .get i => (.seg (viewGet a i), a)
+  | .len => (.len (viewLen a), a)
+  | .iter => (.segs (viewIter a), a)
+  | .sfv k => (.seg (segmentFromVertex a k), a)
+  | .conv => (.conv (toNeuromlMorphology a), a)
+  | .toRoot j => match toRoot a j with
+    | .ok a' => (.unit (.ok ()), a')
+    | .error e => (.unit (.error e), a)
+
+/-- the array-defined results of a history -/
+def specRun : Arr → List Op → List Res × Arr
+  | a, [] => ([], a)
+  | a, op :: ops => let r := specStep a op; let rs := specRun r.2 ops; (r.1 :: rs.1, rs.2)
+
+/-! ### primitives the statement-level translation of `arraymorph.py` is expressed in
+(`translators/py2lean_arraymorph.py` → `Gen/ArrayMorph.lean`; `Props/C18Gen.lean` proves generated = hand model) -/
+
+/-- `np.where(arr == x)[0]` on an int array, positions counted from `k` -/
+def whereEq (x : Int) : Nat → List Int → List Int
+  | _, [] => []
+  | k, y :: ys => if y = x then (k : Int) :: whereEq x (k + 1) ys else whereEq x (k + 1) ys
+
+/-- `range(a, b)` -/
+def pyRange (a b : Int) : List Int := (List.range (b - a).toNat).map (fun k : Nat => a + (k : Int))
+
+/-- `vertices[i][k]` -/
+def getComp (vs : List Vec4) (i k : Int) : Except Err Int := do
+  let v ← getI vs i
+  getI [v.1, v.2.1, v.2.2.1, v.2.2.2] k
+
+/-- `self.connectivity[i] = v` -/
+def setConn (o : Obj) (i v : Int) : Except Err Obj :=
+  match setI o.arr.conn i v with
+  | .ok c => .ok { o with arr := { o.arr with conn := c } }
+  | .error e => .error e
+
+/-- `k in self.instantiated_segments` -/
+def cacheHas (o : Obj) (k : Int) : Bool := (o.cache.lookup k).isSome
+
+/-- `self.instantiated_segments[k]` -/
+def cacheGet (o : Obj) (k : Int) : Except Err Segment :=
+  match o.cache.lookup k with
+  | some s => .ok s
+  | none => .error .keyError
+
+/-- what the checks observe of the `neuroml.Morphology` built by `to_neuroml_morphology` -/
+structure PlainMorph where
+  id : Option String
+  segments : List Segment
+deriving Repr, DecidableEq, Inhabited
+
+/-! the proposed repair `fixes/C18-toroot-invalidates-cache.patch`: `to_root` also empties the cache -/
+
+def toRootObjFixed (o : Obj) (index : Int) : Except Err Unit × Obj :=
+  match toRoot o.arr index with
+  | .ok a' => (.ok (), { arr := a', cache := [] })
+  | .error e => (.error e, o)
+
+def stepFixed (o : Obj) : Op → Res × Obj
+  | .toRoot j => let r := toRootObjFixed o j; (.unit r.1, r.2)
+  | op => step o op
+
+def runFixed : Obj → List Op → List Res × Obj
+  | o, [] => ([], o)
+  | o, op :: ops => let r := stepFixed o op; let rs := runFixed r.2 ops; (r.1 :: rs.1, rs.2)
+
 /-! ### the file format -/
 
 structure Morph where
@@ -262,5 +456,101 @@ def concatE : List (Except Err (List Arr)) → Except Err (List Arr)
 /-- `ArrayMorphLoader.load(path).morphology` as array triples; PyTables iterates children by name -/
 def load (f : H5) : Except Err (List Arr) :=
   concatE ((f.mergeSort nameLe).map nodeMorphs)
+
+/-! ### documents whose cells / morphologies need not be array morphologies
+
+A `NeuroMLDocument` may hold cells WITHOUT an embedded morphology (`<cell morphology="m"/>` refers to a stand-alone
+one — the reason stand-alone morphologies exist), and plain `neuroml.Morphology` objects.  `ArrayMorphWriter`
+reads `morphology.id` / `array_morph.vertices` on them: `AttributeError`, raised before the group of that
+cell / morphology is created. -/
+
+/-- what `cell.morphology` is -/
+inductive CellMorph where
+  | none                       -- no embedded morphology
+  | plain                      -- a plain `neuroml.Morphology` (segments, no arrays)
+  | array (m : Morph)          -- an `ArrayMorphology`
+deriving Repr, DecidableEq, Inhabited
+
+structure XCell where
+  id : Option String
+  morph : CellMorph
+deriving Repr, DecidableEq, Inhabited
+
+/-- a member of `document.morphology` -/
+inductive XMorph where
+  | plain
+  | array (m : Morph)
+deriving Repr, DecidableEq, Inhabited
+
+structure XDoc where
+  cells : List XCell
+  morphs : List XMorph
+deriving Repr, DecidableEq, Inhabited
+
+/-- first loop of `__write_neuroml_document` on any cells -/
+def writeXCells : Nat → List XCell → H5 → Except Err H5
+  | _, [], f => .ok f
+  | k, c :: cs, f =>
+    match c.morph with
+    | .array m0 =>
+      let m : Morph := { m0 with id := some (dflt m0.id "Morphology" k) }
+      match writeSingleCell m f (some (dflt c.id "Cell" k)) with
+      | .error e => .error e
+      | .ok f' => writeXCells (k + 1) cs f'
+    | _ => .error .attributeError        -- `None.id` / `Morphology.vertices`
+
+/-- second loop on any stand-alone morphologies -/
+def writeXMorphs : Nat → List XMorph → H5 → Except Err H5
+  | _, [], f => .ok f
+  | k, x :: ms, f =>
+    match x with
+    | .array m =>
+      match writeSingleCell { m with id := some (dflt m.id "Morphology" k) } f none with
+      | .error e => .error e
+      | .ok f' => writeXMorphs (k + 1) ms f'
+    | .plain => .error .attributeError
+
+/-- `ArrayMorphWriter.write(document, path)` for any document -/
+def writeXDoc (d : XDoc) : Except Err H5 :=
+  match writeXCells 0 d.cells [] with
+  | .error e => .error e
+  | .ok f => writeXMorphs 0 d.morphs f
+
+/-- the proposed loader repair (`fixes/C18-loader-vertices-is-array.patch`): a root child is a morphology group
+    only when its child `vertices` is an ARRAY; a cell group is always read through its children -/
+def nodeMorphsFixed : String × Node → List Arr
+  | (_, .morph a) => [a]
+  | (_, .cell ch) => (ch.mergeSort (fun x y => decide (x.1 ≤ y.1))).map (·.2)
+
+def loadFixed (f : H5) : List Arr := (f.mergeSort nameLe).flatMap nodeMorphsFixed
+
+/-! the proposed writer repair (`fixes/C18-writer-skips-non-array.patch`): cells / stand-alone morphologies that
+    are not array morphologies are skipped (their position still counts for the default names) -/
+
+def writeXCellsFixed : Nat → List XCell → H5 → Except Err H5
+  | _, [], f => .ok f
+  | k, c :: cs, f =>
+    match c.morph with
+    | .array m0 =>
+      let m : Morph := { m0 with id := some (dflt m0.id "Morphology" k) }
+      match writeSingleCell m f (some (dflt c.id "Cell" k)) with
+      | .error e => .error e
+      | .ok f' => writeXCellsFixed (k + 1) cs f'
+    | _ => writeXCellsFixed (k + 1) cs f
+
+def writeXMorphsFixed : Nat → List XMorph → H5 → Except Err H5
+  | _, [], f => .ok f
+  | k, x :: ms, f =>
+    match x with
+    | .array m =>
+      match writeSingleCell { m with id := some (dflt m.id "Morphology" k) } f none with
+      | .error e => .error e
+      | .ok f' => writeXMorphsFixed (k + 1) ms f'
+    | .plain => writeXMorphsFixed (k + 1) ms f
+
+def writeXDocFixed (d : XDoc) : Except Err H5 :=
+  match writeXCellsFixed 0 d.cells [] with
+  | .error e => .error e
+  | .ok f => writeXMorphsFixed 0 d.morphs f
 
 end NmlVerif.ArrayMorph
